@@ -36,7 +36,7 @@ func (t *tr) nargs(ce *ast.CallExpr, n int) {
 // receiver's cell and return the receiver.
 func (t *tr) bigMethod(recv *val, m string, ce *ast.CallExpr) callRes {
 	one := func(v *val) callRes { return callRes{vals: []*val{v}} }
-	if recv.isNil || recv.c == nil {
+	if recv.isNil || (recv.c == nil && recv.el == nil) {
 		t.fail("method %s on a nil *big.Int", m)
 	}
 	bin := func(op string) callRes {
@@ -46,13 +46,13 @@ func (t *tr) bigMethod(recv *val, m string, ce *ast.CallExpr) callRes {
 		if len(t.lines) != nl {
 			t.fail("an argument of %s has side effects: evaluation order is not modelled", m)
 		}
-		t.write(recv.c, par(a)+" "+op+" "+par(b), 0)
+		t.writeInt(recv, par(a)+" "+op+" "+par(b))
 		return one(recv)
 	}
 	switch m {
 	case "Set":
 		t.nargs(ce, 1)
-		t.write(recv.c, t.zArg(ce.Args[0]), 0)
+		t.writeInt(recv, t.zArg(ce.Args[0]))
 		return one(recv)
 	case "SetInt64", "SetUint64":
 		t.nargs(ce, 1)
@@ -60,7 +60,7 @@ func (t *tr) bigMethod(recv *val, m string, ce *ast.CallExpr) callRes {
 		if !ok {
 			t.fail("%s of a non-literal", m)
 		}
-		t.write(recv.c, zLit(s), 0)
+		t.writeInt(recv, zLit(s))
 		return one(recv)
 	case "Add":
 		return bin("+")
@@ -74,11 +74,11 @@ func (t *tr) bigMethod(recv *val, m string, ce *ast.CallExpr) callRes {
 		if !positiveGlobals[b] {
 			t.fail("Mod by %s, which is not a modulus known to be positive", b)
 		}
-		t.write(recv.c, par(a)+" mod "+par(b), 0)
+		t.writeInt(recv, par(a)+" mod "+par(b))
 		return one(recv)
 	case "Neg":
 		t.nargs(ce, 1)
-		t.write(recv.c, "- "+par(t.zArg(ce.Args[0])), 0)
+		t.writeInt(recv, "- "+par(t.zArg(ce.Args[0])))
 		return one(recv)
 	case "Lsh", "Rsh":
 		t.nargs(ce, 2)
@@ -91,7 +91,7 @@ func (t *tr) bigMethod(recv *val, m string, ce *ast.CallExpr) callRes {
 		if m == "Rsh" {
 			f = "Z.shiftr"
 		}
-		t.write(recv.c, f+" "+par(a)+" "+s, 0)
+		t.writeInt(recv, f+" "+par(a)+" "+s)
 		return one(recv)
 	case "ModInverse":
 		t.nargs(ce, 2)
@@ -99,7 +99,7 @@ func (t *tr) bigMethod(recv *val, m string, ce *ast.CallExpr) callRes {
 		if !t.isGlobalQ(ce.Args[1]) {
 			t.fail("ModInverse with a modulus other than constants.Q")
 		}
-		t.write(recv.c, "BabyJub.modinv "+par(a), 0)
+		t.writeInt(recv, "BabyJub.modinv "+par(a))
 		return one(recv)
 	case "ModSqrt":
 		t.nargs(ce, 2)
@@ -116,13 +116,18 @@ func (t *tr) bigMethod(recv *val, m string, ce *ast.CallExpr) callRes {
 		if b.t.k != kSlice {
 			t.fail("SetBytes of %s", b.t)
 		}
-		t.write(recv.c, "be_val "+par(t.bytesOf(b)), 0)
+		t.writeInt(recv, "be_val "+par(t.bytesOf(b)))
 		return one(recv)
 	case "Bytes":
 		t.nargs(ce, 0)
 		return one(&val{t: tSlice, e: "min_be_bytes " + par(t.valueOf(recv))})
 	case "Cmp", "Sign":
 		t.fail("the result of %s must be compared with a literal", m)
+	}
+	if t.g.loops {
+		if r, ok := t.bigMethodLoops(recv, m, ce); ok {
+			return r
+		}
 	}
 	t.fail("unsupported big.Int method %s", m)
 	return callRes{}
@@ -137,38 +142,44 @@ type sqrtPend struct {
 // representative in [0, Q) (what C05 proves about the limb code).
 func (t *tr) feMethod(recv *val, m string, ce *ast.CallExpr) callRes {
 	one := func(v *val) callRes { return callRes{vals: []*val{v}} }
-	if recv.isNil || recv.c == nil {
+	if recv.isNil || (recv.c == nil && recv.el == nil) {
 		t.fail("method %s on a nil *ff.Element", m)
 	}
-	modq := func(s string) string { return "(" + s + ") mod " + coqQ }
+	q := t.modOf(recv.t)
+	modq := func(s string) string { return "(" + s + ") mod " + q }
 	switch m {
 	case "Mul", "Add", "Sub":
 		t.nargs(ce, 2)
 		a, b := par(t.zArg(ce.Args[0])), par(t.zArg(ce.Args[1]))
 		op := map[string]string{"Mul": "*", "Add": "+", "Sub": "-"}[m]
-		t.write(recv.c, modq(a+" "+op+" "+b), 0)
+		t.writeInt(recv, modq(a+" "+op+" "+b))
 		return one(recv)
 	case "Square":
 		t.nargs(ce, 1)
 		a := par(t.zArg(ce.Args[0]))
-		t.write(recv.c, modq(a+" * "+a), 0)
+		t.writeInt(recv, modq(a+" * "+a))
 		return one(recv)
 	case "Set":
 		t.nargs(ce, 1)
-		t.write(recv.c, t.zArg(ce.Args[0]), 0)
+		t.writeInt(recv, t.zArg(ce.Args[0]))
 		return one(recv)
 	case "SetZero":
 		t.nargs(ce, 0)
-		t.write(recv.c, "0", 0)
+		t.writeInt(recv, "0")
 		return one(recv)
 	case "SetOne":
 		t.nargs(ce, 0)
-		t.write(recv.c, "1", 0)
+		t.writeInt(recv, "1")
 		return one(recv)
 	case "SetBigInt":
 		t.nargs(ce, 1)
-		t.write(recv.c, par(t.zArg(ce.Args[0]))+" mod "+coqQ, 0)
+		t.writeInt(recv, par(t.zArg(ce.Args[0]))+" mod "+q)
 		return one(recv)
+	}
+	if t.g.loops {
+		if r, ok := t.feMethodLoops(recv, m, ce); ok {
+			return r
+		}
 	}
 	t.fail("unsupported ff.Element method %s", m)
 	return callRes{}
